@@ -98,10 +98,42 @@ type gen struct {
 	fills  []string
 	tails  []string
 	long   bool // occasionally very long texts (the accumulated output shrinks and grows a lot between checks)
+	// deco: white space the device prints right before / after a keyword; the literal trigger text
+	// of that keyword then starts / ends with it ("Password: ", "\nlogin", " confirm ")
+	deco map[string][2]string
+}
+
+var decos = [][2]string{{"", ": "}, {"", "? "}, {"", " "}, {"", ":\t"}, {"", ":\n"}, {"", ": "}, {"\n", ""}, {" ", ""}, {"\t", ""}, {" ", " "}, {"\n", ": "}}
+
+func (g *gen) decorate(words []string) {
+	for _, w := range words {
+		if g.r.Intn(4) == 0 {
+			g.deco[w] = decos[g.r.Intn(len(decos))]
+		}
+	}
+}
+
+// emitKw is how the device prints a keyword: in this case's rendering, with its white space
+// decoration - which it now and then leaves out, so that the trimmed text is there but the
+// literal text is not.
+func (g *gen) emitKw(w string) string {
+	dc, ok := g.deco[w]
+	if !ok {
+		return g.render(w)
+	}
+	pre, post := dc[0], dc[1]
+	if g.r.Intn(5) == 0 {
+		if post != "" {
+			post = strings.TrimRight(post, " \t\n")
+		} else {
+			pre = ""
+		}
+	}
+	return pre + g.render(w) + post
 }
 
 func newGen(r *rand.Rand) *gen {
-	g := &gen{r: r, rend: map[string]string{}, pool: keywords, fills: fillers, tails: tails}
+	g := &gen{r: r, rend: map[string]string{}, deco: map[string][2]string{}, pool: keywords, fills: fillers, tails: tails}
 	if r.Intn(100) < 55 {
 		g.script = []string{"latin1", "cyrillic", "greek", "mixed"}[r.Intn(4)]
 		// the script's words first in line (chain() takes its keywords from a permutation of the
@@ -193,7 +225,7 @@ func (g *gen) stageText(kws []string) (text string, before, after []string) {
 				b.WriteString(strings.Join(mid, " ") + " ")
 			}
 		}
-		b.WriteString(g.render(kws[o]))
+		b.WriteString(g.emitKw(kws[o]))
 	}
 	if r.Intn(3) == 0 {
 		after = g.fill(1 + r.Intn(2))
@@ -207,6 +239,19 @@ func (g *gen) stageText(kws []string) (text string, before, after []string) {
 func (g *gen) trigger(cb *CB, w string) {
 	r := g.r
 	cb.Contains, cb.Re, cb.Sensitive = "", "", false
+	if dc, ok := g.deco[w]; ok && r.Intn(4) != 0 {
+		// literal text with leading / trailing white space
+		switch r.Intn(4) {
+		case 0:
+			cb.Sensitive = true
+			cb.Contains = dc[0] + g.render(w) + dc[1]
+		case 1:
+			cb.Contains = dc[0] + strings.ToUpper(w) + dc[1]
+		default:
+			cb.Contains = dc[0] + w + dc[1]
+		}
+		return
+	}
 	q := regexp.QuoteMeta(w)
 	form := r.Intn(12)
 	if nonASCII(w) && (form == 9 || form == 10) {
@@ -277,6 +322,40 @@ func (g *gen) notContains(cb *CB, before, after []string, others []string) {
 		}
 		return c[r.Intn(len(c))]
 	}
+	if r.Intn(4) == 0 {
+		// a not-contains text with white space around it: a word of its own, which the output
+		// may contain only inside another word (or at the end of a line)
+		var c []string
+		for _, l := range [][]string{before, after, others} {
+			for _, x := range l {
+				if utf8.RuneCountInString(x) >= 4 && strings.ToLower(x) != strings.ToUpper(x) {
+					c = append(c, x)
+				}
+			}
+		}
+		if len(c) > 0 {
+			x := c[r.Intn(len(c))]
+			rs := []rune(x)
+			part := string(rs[:3+r.Intn(len(rs)-3)]) // a proper prefix of at least three letters
+			var t string
+			switch r.Intn(5) {
+			case 0, 1:
+				t = " " + part + " "
+			case 2:
+				t = " " + x + " "
+			case 3:
+				t = x + "\n"
+			case 4:
+				t = "\t" + part
+			}
+			if cb.Sensitive {
+				cb.NotContains = t
+			} else {
+				cb.NotContains = g.anyCase(strings.ToLower(t))
+			}
+			return
+		}
+	}
 	w := ""
 	switch r.Intn(8) {
 	case 0, 1:
@@ -335,6 +414,8 @@ func (g *gen) chain(fam string) Desc {
 		K[i] = g.pool[perm[i]]
 	}
 	spare := []string{g.pool[perm[k+1]], g.pool[perm[k+2]], g.pool[perm[k+3]]}
+	g.decorate(K)
+	g.decorate(spare)
 	texts := make([]string, k+1)
 	befores := make([][]string, k+1)
 	afters := make([][]string, k+1)
@@ -560,6 +641,7 @@ func (g *gen) soup() Desc {
 		}
 		return o
 	}
+	g.decorate(sub)
 	var allBefore []string
 	d.Opening, allBefore, _ = g.stageText(words())
 	for _, a := range as {
@@ -696,7 +778,7 @@ func init() {
 		Level: "exploration",
 		Rule: "PRNG-generated callback lists (1-6 callbacks: contains / upper-case contains under insensitivity / case-sensitive / regexp in lower case, end-anchored, " +
 			"with own (?i) / contains+regexp / not-contains present-before, present-after, absent, other case / once / complete / complete without function / " +
-			"reset-output off / next-timeout / functions that return an error on a chosen run (own validation error, or a one-shot transport write fault on the answer's return character); in 55 % of the cases trigger texts, patterns, not-contains texts and device output use letters with case from the Latin-1 supplement, " +
+			"literal texts with leading / trailing blanks, tabs, newlines which the device sometimes leaves out / not-contains words with blanks around them occurring inside other words / reset-output off / next-timeout / functions that return an error on a chosen run (own validation error, or a one-shot transport write fault on the answer's return character); in 55 % of the cases trigger texts, patterns, not-contains texts and device output use letters with case from the Latin-1 supplement, " +
 			"Cyrillic, Greek and a few whose case mapping changes the byte length, printed by the device in lower / Title / UPPER case) against a causal scripted device (answers typed by the callbacks advance the dialogue; echo on/off; repeated questions; " +
 			"several keywords in one text; decoys sharing keywords) under PRNG segmentation (1..16-byte, whole, geometric, mixed reads; boundaries fall inside multi-byte letters); texts of very different length so that the output a callback " +
 			"object is checked against shrinks and grows; 40 % of the chains with an input repeat the operation 2-3 times with the same callback objects. " +
